@@ -220,6 +220,16 @@ def check_case(ctx, case):
     ok = _cmp(ctx, p, pp, f"product/{cls}/{tkey}", "product() differs from the product given to from_graphs", case) and ok
     if not ok:
         return
+    # the same decomposition without attributes (keep_attributes=False): same atoms, elements, bonds and stereo
+    try:
+        ok = _cmp(ctx, r, rg.reactant(keep_attributes=False), f"reactant/{cls}/{tkey}/keep_attributes=False", "reactant(keep_attributes=False) differs from the reactant given to from_graphs", case)
+        ok = _cmp(ctx, p, rg.product(keep_attributes=False), f"product/{cls}/{tkey}/keep_attributes=False", "product(keep_attributes=False) differs from the product given to from_graphs", case) and ok
+        ctx.count("decompositions_without_attributes")
+    except Exception as e:  # noqa: BLE001
+        ctx.violate(f"C08/reactant-or-product-raises:{type(e).__name__}/{cls}/{tkey}/keep_attributes=False", f"{e!r}", case)
+        return
+    if not ok:
+        return
     # reversal
     S = snap(rg)
     # fleeting stereo: a transition-state descriptor that differs from both the reactant's and the
